@@ -124,6 +124,18 @@ def mutate(sch, rnd, g, p):
 
     walk(p, ())
     path, c = rnd.choice(paths)
+    ms_ = c[2] if c[0] == "t" else c[3]
+    with_attrs = [k for k, m in enumerate(ms_) if m[1] != "{}"]
+    if with_attrs and path and rnd.random() < 0.3:
+        # one attribute of one mark changed as little as possible
+        k = rnd.choice(with_attrs)
+        a = json.loads(ms_[k][1])
+        key = rnd.choice(sorted(a))
+        a[key] = gen.near_value(rnd, a[key])
+        ms2 = ms_[:k] + ((ms_[k][0], flat.akey(a)),) + ms_[k + 1:]
+        if len({m[0] for m in ms2}) == len(ms2) or ms2 != ms_:
+            new = ("t", c[1], ms2) if c[0] == "t" else ("n", c[1], c[2], ms2, c[4])
+            return _replace_at(p, path, new)
     if c[0] == "t":
         us = flat.units(c[1])
         r = rnd.random()
@@ -143,7 +155,14 @@ def mutate(sch, rnd, g, p):
         new = ("t", flat.units_to_str(us), c[2])
     else:
         t = sch.ref.nodes[c[1]]
-        if t.attrs and rnd.random() < 0.7:
+        if t.attrs and rnd.random() < 0.35:
+            # one attribute changed as little as possible (list grown by an element, falsy
+            # value swapped for another falsy value, ...)
+            a = json.loads(c[2])
+            k = rnd.choice(sorted(a))
+            a[k] = gen.near_value(rnd, a[k])
+            new = ("n", c[1], flat.akey(a), c[3], c[4])
+        elif t.attrs and rnd.random() < 0.6:
             new = ("n", c[1], flat.akey(g.attrs(t.attrs, c[1], 1.0)), c[3], c[4])
         elif c[4] and rnd.random() < 0.5:
             new = ("n", c[1], c[2], c[3], c[4][:-1])
@@ -163,7 +182,7 @@ def _replace_at(p, path, new):
 def case(ctx, rnd, i):
     from prosemirror.transform import Transform
 
-    st = opwork.setup_history(ctx, rnd, random_share=0.2, wide=0.35)
+    st = opwork.setup_history(ctx, rnd, random_share=0.2, wide=0.35, nested_attrs=True)
     if st is None:
         return
     sch, g, d, p, slices = st
